@@ -8,6 +8,8 @@ import (
 	"sort"
 	"strings"
 
+	"golang.org/x/tools/go/ssa"
+
 	"jsverif/internal/absint"
 	"jsverif/internal/core"
 )
@@ -182,33 +184,81 @@ func c18pattern(c *core.Ctx) {
 		c.Unresolved(R, "notations/jschema.FromRSchema")
 		return
 	}
-	patVar := ""
-	ast.Inspect(d.Decl.Body, func(n ast.Node) bool {
-		if as, ok := n.(*ast.AssignStmt); ok && len(as.Rhs) == 1 && len(as.Lhs) >= 1 {
-			if call, ok := as.Rhs[0].(*ast.CallExpr); ok && core.FullName(core.Callee(d.Pkg, call)) == "(*notations/regex.RSchema).Pattern" {
-				patVar = core.ExprStr(as.Lhs[0])
-			}
+	// value flow on SSA: the result of Pattern() reaches encoding/json.Marshal unchanged - directly or
+	// as an argument handed down to helpers of the module; any transformation creates another value
+	f := c.P.Func("notations/jschema", "FromRSchema")
+	if f == nil {
+		c.Unresolved(R, "notations/jschema.FromRSchema (SSA)")
+		return
+	}
+	fromPattern, marshalled := false, false
+	var work []ssa.Value
+	seen := map[ssa.Value]bool{}
+	push := func(v ssa.Value) {
+		if v != nil && !seen[v] {
+			seen[v] = true
+			work = append(work, v)
 		}
-		return true
-	})
-	marshalled := false
-	reassigned := false
-	ast.Inspect(d.Decl.Body, func(n ast.Node) bool {
-		switch x := n.(type) {
-		case *ast.CallExpr:
-			if core.FullName(core.Callee(d.Pkg, x)) == "encoding/json.Marshal" && len(x.Args) == 1 && patVar != "" && core.ExprStr(x.Args[0]) == patVar {
-				marshalled = true
-			}
-		case *ast.AssignStmt:
-			for _, l := range x.Lhs {
-				if core.ExprStr(l) == patVar && patVar != "" && x.Tok == token.ASSIGN {
-					reassigned = true
+	}
+	for _, b := range f.Blocks {
+		for _, in := range b.Instrs {
+			if call, ok := in.(*ssa.Call); ok {
+				if g := call.Call.StaticCallee(); g != nil && core.FuncName(g) == "(*notations/regex.RSchema).Pattern" {
+					fromPattern = true
+					push(call)
 				}
 			}
 		}
-		return true
-	})
-	c.Check(patVar != "" && marshalled && !reassigned, R, "FromRSchema:pattern", c.P.Pos(d.Decl.Pos()), "FromRSchema: pattern := s.Pattern(); json.Marshal(pattern)", core.F("the pattern of the derived schema is not the unmodified result of Pattern() (from Pattern(): %v, encoded as is: %v, reassigned: %v)", patVar != "", marshalled, reassigned))
+	}
+	for len(work) > 0 {
+		v := work[0]
+		work = work[1:]
+		if v.Referrers() == nil {
+			continue
+		}
+		for _, ref := range *v.Referrers() {
+			switch x := ref.(type) {
+			case *ssa.Extract:
+				if x.Index == 0 {
+					push(x)
+				}
+			case *ssa.MakeInterface:
+				push(x)
+			case *ssa.ChangeType:
+				push(x)
+			case *ssa.Phi:
+				push(x)
+			case *ssa.Convert:
+				// string <-> []byte keeps the bytes
+				push(x)
+			case *ssa.Store:
+				if al, ok := x.Addr.(*ssa.Alloc); ok && x.Val == v {
+					for _, r2 := range *al.Referrers() {
+						if ld, ok := r2.(*ssa.UnOp); ok && ld.Op == token.MUL {
+							push(ld)
+						}
+					}
+				}
+			case ssa.CallInstruction:
+				com := x.Common()
+				g := com.StaticCallee()
+				if g == nil {
+					continue
+				}
+				for ai, a := range com.Args {
+					if a != v {
+						continue
+					}
+					if g.String() == "encoding/json.Marshal" {
+						marshalled = true
+					} else if c.P.FuncInModule(g) && g.Blocks != nil && ai < len(g.Params) {
+						push(g.Params[ai])
+					}
+				}
+			}
+		}
+	}
+	c.Check(fromPattern && marshalled, R, "FromRSchema:pattern", c.P.Pos(d.Decl.Pos()), "FromRSchema: the result of s.Pattern() reaches json.Marshal unchanged (directly or through helpers)", core.F("the pattern of the derived schema is not the unmodified result of Pattern() (Pattern() called: %v, its result JSON-encoded as is: %v)", fromPattern, marshalled))
 }
 
 // c19ctor: the set constructor keeps order and content in step.
